@@ -495,6 +495,37 @@ fn inst_alternatives_guard() {
     check(off, on, e);
 }
 
+/// overlapping alternatives with a guard: a false guard on the first alternative falls through to the second
+//@K props=C06 tier=quick label=inst feat=ext fn=matching!((x,_)|(_,x)if*x==7)
+#[kani::proof]
+#[kani::unwind(10)]
+#[kani::stub(alloc::fmt::format, fmt_stub)]
+fn inst_alternatives_guard_fallthrough() {
+    let i: (u8, u8) = (kani::any(), kani::any());
+    let (off, on, _) = verdicts::<F2uu>(matching!((x, _) | (_, x) if *x == 7), &i);
+    let e = match (&i.0, &i.1) {
+        (x, _) | (_, x) if *x == 7 => true,
+        _ => false,
+    };
+    check(off, on, e);
+    kani::cover!(e && i.0 != 7, "accepted by the second alternative only");
+}
+
+/// two ne! operands in one alternative: every != must hold
+//@K props=C06,C19 tier=quick label=inst feat=ext fn=matching!(ne!(&0),ne!(&1))
+#[kani::proof]
+#[kani::unwind(10)]
+#[kani::stub(alloc::fmt::format, fmt_stub)]
+#[kani::solver(minisat)]
+fn inst_two_ne() {
+    let i: (u8, u8) = (kani::any(), kani::any());
+    let (off, on, mism) = verdicts::<F2uu>(matching!(ne!(&0), ne!(&1)), &i);
+    let e = i.0 != 0 && i.1 != 1;
+    check(off, on, e);
+    let rej = ((i.0 == 0) as u8) | (((i.1 == 1) as u8) << 1);
+    check_positions(e, &mism, rej, [2, 2, 0, 0], 2);
+}
+
 /// nested Option patterns with binding @ range
 //@K props=C06,C19 tier=quick label=inst feat=ext fn=matching!(Some(None)|Some(Some(1..=3)))
 #[kani::proof]
